@@ -12,7 +12,9 @@ import (
 	"strconv"
 	"strings"
 	"sync"
+	"time"
 
+	"github.com/golang-jwt/jwt/v4"
 	"github.com/simpleiot/simpleiot/client"
 	"verif/h/c04"
 	"verif/h/mc"
@@ -315,6 +317,15 @@ func checkC04(r *mc.Report, thorough bool) {
 			// the recovered instance keeps working and its identity is stable over another restart
 			if err := client.SendNodePoints(rec.Nc, rec.RootID, c04.History(0, rec.RootID)[10].Points, true); err != nil {
 				fail("write-after-recovery", "write refused after recovery: "+err.Error())
+			}
+			// the recovered instance signs with a real key: a token anybody can make with the empty key is not valid
+			{
+				forged, _ := jwt.NewWithClaims(jwt.SigningMethodHS256, jwt.StandardClaims{ExpiresAt: time.Now().Add(time.Hour).Unix(), Issuer: "simpleiot", Id: "intruder"}).SignedString([]byte{})
+				req := httptest.NewRequest("GET", "http://x/", nil)
+				req.Header.Set("Authorization", "Bearer "+forged)
+				if ok, _ := rec.Store.GetAuthorizer().Valid(req); ok {
+					fail("signing-key-missing", "after recovery the instance accepts a token signed with the EMPTY key: it runs without a token-signing key")
+				}
 			}
 			tok, _ := rec.Store.GetAuthorizer().NewToken("u")
 			rid := rec.RootID
